@@ -101,6 +101,7 @@ type LockInv struct {
 	Self     string
 	Inv      *CNode
 	Src      string
+	NoHavoc  bool   // lockonly: lock-held discipline without interference havoc (sequential contracts)
 	Guar     *CNode // optional two-state guarantee G(old, new): reflexive, transitive
 	GuarSrc  string
 }
@@ -131,7 +132,7 @@ func newContractSet() *ContractSet {
 var clauseKw = map[string]bool{"props": true, "tier": true, "requires": true, "ensures": true, "modifies": true, "loop": true,
 	"panics": true, "inline": true, "pure": true, "assumes": true, "universe": true, "fresh": true, "params": true, "note": true, "funcparam": true, "ghostset": true}
 
-var topKw = map[string]bool{"lockinv": true, "lockguar": true, "ufunc": true, "smtaxiom": true, "func": true, "trusted": true, "spec": true, "ghost": true, "lemma": true, "axiom": true, "purepkg": true}
+var topKw = map[string]bool{"lockonly": true, "lockinv": true, "lockguar": true, "ufunc": true, "smtaxiom": true, "func": true, "trusted": true, "spec": true, "ghost": true, "lemma": true, "axiom": true, "purepkg": true}
 
 type rawLine struct {
 	text string
@@ -291,8 +292,11 @@ func (cs *ContractSet) parseFile(fset *token.FileSet, f *ast.File, pkgPath strin
 			lm.Expr = parse(it, lm.Src)
 			cs.Lemmas = append(cs.Lemmas, lm)
 			cur = nil
-		case "lockinv":
+		case "lockinv", "lockonly":
 			// lockinv T.lock protects T.f, ghost self x : inv
+			if it.kw == "lockonly" && !strings.Contains(it.rest, ":") {
+				it.rest += " : true"
+			}
 			i := strings.Index(it.rest, ":")
 			if i < 0 {
 				errf(it, "bad lockinv")
@@ -303,7 +307,7 @@ func (cs *ContractSet) parseFile(fset *token.FileSet, f *ast.File, pkgPath strin
 				errf(it, "bad lockinv head")
 				continue
 			}
-			li := &LockInv{Pkg: pkgPath, Self: "self", Src: strings.TrimSpace(it.rest[i+1:])}
+			li := &LockInv{Pkg: pkgPath, Self: "self", Src: strings.TrimSpace(it.rest[i+1:]), NoHavoc: it.kw == "lockonly"}
 			dot := strings.Index(head[0], ".")
 			li.Type, li.Field = head[0][:dot], head[0][dot+1:]
 			mode := ""
